@@ -630,7 +630,14 @@ class Resolver:
             if os.path.isdir(cached_directory):
                 self.copy_tree(cached_directory, self.dirname)
             elif self.wrap.type is WrapType.FILE:
-                self._get_file(packagename)
+                try:
+                    self._get_file(packagename)
+                except Exception:
+                    # Never leave a partially unpacked source tree behind: a
+                    # later run would take it for a complete subproject.
+                    if os.path.isdir(self.dirname):
+                        windows_proof_rmtree(self.dirname)
+                    raise
             else:
                 self.check_can_download()
                 if self.wrap.type is WrapType.GIT:
